@@ -2,3 +2,7 @@ import XzVerif.Props.C07
 #print axioms Props.C07.C07_reader_decodes_every_legal_body
 #print axioms Props.C07.C07_tables
 #print axioms Props.C07.C07_reader_reads_every_legal_stream
+#print axioms Props.C07.lazy_of_batch
+#print axioms Props.C07.C07_lazy_reader_reads_every_legal_stream_known
+#print axioms Props.C07.C07_lazy_reader_reads_every_legal_stream_known_marker
+#print axioms Props.C07.C07_lazy_reader_reads_every_legal_stream_unknown
